@@ -54,13 +54,120 @@ fn step() -> BoxedStrategy<Step> {
 }
 
 pub fn subs() -> Vec<Box<dyn AnySub>> {
-    vec![Box::new(Sub {
-        name: "histories",
-        quick: 4_000,
-        thorough: 60_000,
-        strat: || proptest::collection::vec(step(), 1..40).prop_map(|steps| History { steps }).boxed(),
-        check: check_history,
-    })]
+    vec![
+        Box::new(Sub {
+            name: "histories",
+            quick: 4_000,
+            thorough: 60_000,
+            strat: || proptest::collection::vec(step(), 1..40).prop_map(|steps| History { steps }).boxed(),
+            check: check_history,
+        }),
+        Box::new(Sub {
+            name: "fn-adapter-histories",
+            quick: 3_000,
+            thorough: 40_000,
+            strat: || proptest::collection::vec(step(), 1..20).prop_map(|steps| History { steps }).boxed(),
+            check: check_adapter_history,
+        }),
+    ]
+}
+
+/// The same discipline through the crate's own `service_for_signing_key_fn` adapter: one closure-backed
+/// service shared by the whole history, counting its invocations.
+pub fn check_adapter_history(h: &History, cc: &mut CaseCtx) -> CheckResult {
+    use scratchstack_aws_signature::{service_for_signing_key_fn, sigv4_validate_request, GetSigningKeyRequest, GetSigningKeyResponse, KSecretKey, SignatureOptions, NO_ADDITIONAL_SIGNED_HEADERS};
+    use std::str::FromStr;
+    use std::sync::{Arc, Mutex};
+    let log: Arc<Mutex<Vec<KeyQuery>>> = Arc::new(Mutex::new(Vec::new()));
+    let behaviour: Arc<Mutex<(u8, String)>> = Arc::new(Mutex::new((0, String::new())));
+    let (l2, b2) = (log.clone(), behaviour.clone());
+    // (bound first: passed inline, the FnOnce bound of the helper would make the closure FnOnce-only)
+    let f = move |req: GetSigningKeyRequest| {
+        let (l, b) = (l2.clone(), b2.clone());
+        async move {
+            l.lock().unwrap().push(KeyQuery {
+                access_key: req.access_key().to_string(),
+                token: req.session_token().map(|s| s.to_string()),
+                date8: req.request_date().format("%Y%m%d").to_string(),
+                region: req.region().to_string(),
+                service: req.service().to_string(),
+            });
+            let (answer, secret) = b.lock().unwrap().clone();
+            match answer {
+                0 => {
+                    let k = KSecretKey::<44>::from_str(&secret).map_err(|_| Box::new(exec::ForeignError("secret".into())) as tower::BoxError)?;
+                    Ok(GetSigningKeyResponse::builder().signing_key(k.to_ksigning(req.request_date(), req.region(), req.service())).build().map_err(|e| Box::new(exec::ForeignError(e.to_string())) as tower::BoxError)?)
+                }
+                13 => Err(Box::new(exec::ForeignError("backend unreachable".into())) as tower::BoxError),
+                k => Err(Box::new(exec::make_sig_err(Kind::ALL[(k as usize - 1) % 12], &format!("provider says no #{}", k))) as tower::BoxError),
+            }
+        }
+    };
+    let mut svc = service_for_signing_key_fn(f);
+    let mut nontrivial = false;
+    for (i, s) in h.steps.iter().enumerate() {
+        let mut case = step_case(s);
+        // the adapter is always ready; readiness scripting does not apply here
+        case.prov.ready_pending = 0;
+        case.prov.ready_err = None;
+        case.prov.call_pending = 0;
+        if case.req.headers.iter().any(|(n, _)| n.eq_ignore_ascii_case("x-must")) && !case.cfg.reqs.always.is_empty() {
+            // the adapter run uses NO_ADDITIONAL_SIGNED_HEADERS
+        }
+        case.cfg.reqs = Reqs::default();
+        let a = analyze(&case);
+        *behaviour.lock().unwrap() = (s.answer, case.prov.keys[0].secret.clone());
+        let Ok(http_req) = exec::build_http(&case.req) else { continue };
+        let Some(now) = exec::to_datetime(case.cfg.now) else { continue };
+        let before = log.lock().unwrap().len();
+        let opts = SignatureOptions { s3: case.cfg.s3, url_encode_form: case.cfg.fold };
+        let r = std::panic::catch_unwind(std::panic::AssertUnwindSafe(|| {
+            exec::block_on(sigv4_validate_request(http_req, &case.cfg.region, &case.cfg.service, &mut svc, now, &NO_ADDITIONAL_SIGNED_HEADERS, opts), 10_000)
+        }));
+        let calls = log.lock().unwrap().len() - before;
+        let ctxt = |m: String| format!("step {} of {} ({:?}, answer={}): {}", i, h.steps.len(), s.req.defects, s.answer, m);
+        let (res, _) = match r {
+            Err(p) => return Err(Failure::new("panic:adapter", ctxt(exec::panic_message(p)))),
+            Ok(v) => v,
+        };
+        let Some(res) = res else { return Err(Failure::new("hang", ctxt("validation did not complete".into()))) };
+        if calls > 1 {
+            return Err(Failure::new("provider-called-twice", ctxt(format!("closure invoked {} times", calls))));
+        }
+        if !a.verdict().is_specified() {
+            continue;
+        }
+        let want_calls = a.provider_calls.unwrap_or(0) as usize;
+        if calls != want_calls {
+            return Err(Failure::new(&format!("provider-calls:{}!={}", calls, want_calls), ctxt(format!("closure invoked {} times, model says {} ({})", calls, want_calls, a.verdict().short()))));
+        }
+        if calls == 1 {
+            if let Some(q) = &a.key_query {
+                let got = log.lock().unwrap().last().cloned().unwrap();
+                if got != *q {
+                    return Err(Failure::new("provider-args", ctxt(format!("closure asked for {:?}, model says {:?}", got, q))));
+                }
+            }
+        }
+        match (a.verdict(), &res) {
+            (Verdict::Accept, Ok(_)) => {}
+            (Verdict::Accept, Err(e)) => return Err(Failure::new("rejected-valid", ctxt(format!("model accepts, crate: {}", e)))),
+            (Verdict::Reject { .. }, Ok(_)) => return Err(Failure::new("accepted-must-reject", ctxt(format!("model: {}; crate accepted", a.verdict().short())))),
+            (Verdict::Reject { kinds, .. }, Err(e)) => {
+                let k = e.downcast_ref::<scratchstack_aws_signature::SignatureError>().map(exec::kind_of);
+                if k.map(|k| !kinds.contains(&k)).unwrap_or(true) {
+                    return Err(Failure::new("wrong-kind", ctxt(format!("model: {:?}; crate: {:?} {}", kinds, k, e))));
+                }
+            }
+            _ => {}
+        }
+        nontrivial |= s.answer != 0 || !s.req.defects.is_empty();
+    }
+    if nontrivial && h.steps.len() >= 2 {
+        cc.class("adapter-history");
+        cc.nontrivial(digest_of(&[format!("{:?}", h).as_bytes(), b"adapter"]));
+    }
+    Ok(())
 }
 
 fn answer_of(code: u8) -> Answer {
